@@ -1192,6 +1192,14 @@ class Symbolic(
           (value.sym_parent is not self
            or root_path != value.sym_path)):
         value = value.clone()
+      else:
+        # A container (e.g. the root) cannot be stored under itself.
+        node = self
+        while node is not None:
+          if node is value:
+            value = value.clone()
+            break
+          node = node.sym_parent
 
     if isinstance(value, TopologyAware):
       value.sym_setpath(utils.KeyPath(key, self.sym_path))
